@@ -12,7 +12,7 @@ from fractions import Fraction
 from ..domains import IntSet
 from ..extract import Canon
 from ..spec import itu
-from .common import flatten, unwrap_message, strip_wrappers, leaf_table
+from .common import flatten, unwrap_message, strip_wrappers, leaf_table, sources
 from .c04 import infer_shape
 
 SENT = {"lon": 108600000, "lat": 54600000, "lon10": 108600, "lat10": 54600}
@@ -71,8 +71,44 @@ def _sentinel(kind, width):
     return sent
 
 
+def _subst_src(term, src):
+    if term == src:
+        return ("sym", "arg0")
+    if isinstance(term, tuple):
+        return tuple(_subst_src(x, src) for x in term)
+    return term
+
+
+def collect_inline(ctx, cfgs):
+    """fields whose value is computed in the message parser itself (no decoder function): the
+    (raw values -> result) table is assembled from the outcome partitions of messages::parse"""
+    table = {}
+    for (cfg, I, C, struct, p, kind, (off, w), term, o) in numeric_fields(ctx, cfgs):
+        core, ws = strip_wrappers(term)
+        if [x for x in ws if isinstance(x, tuple)]:
+            continue
+        signed = kind.split(":")[0] in SENT
+        src = ("sext" if signed else "bits", off, w)
+        ss = sources(term)
+        if term == ("none",) or (ss and all(x == src for x in ss)):
+            rng = IntSet.range(-(1 << (w - 1)), (1 << (w - 1)) - 1) if signed else IntSet.range(0, (1 << w) - 1)
+            g = o.guard.get(src)
+            codes = rng if g is None else g.intersect(rng)
+            res = _subst_src(term, src)
+            ent = table.setdefault((cfg, struct, p), {}).setdefault(repr(res), [res, IntSet.empty()])
+            ent[1] = ent[1].union(codes)
+    return table
+
+
 def field_table(chk, pid, I, C, cfg, struct, p, kind, offw, term, o, cache):
     """-> (rows, callsite set, leaf) or None (a violation has been recorded)"""
+    inline = cache.get("inline", {}).get((cfg, struct, p))
+    if inline is not None:
+        off, w = offw
+        signed = kind.split(":")[0] in SENT
+        rng = IntSet.range(-(1 << (w - 1)), (1 << (w - 1)) - 1) if signed else IntSet.range(0, (1 << w) - 1)
+        rows = [((codes,), res, None, None) for (res, codes) in inline.values()]
+        return rows, rng, "inline:%s.%s" % (struct, p)
     core, ws = strip_wrappers(term)
     leaves = [x for x in ws if isinstance(x, tuple)]
     off, w = offw
@@ -106,7 +142,7 @@ def field_table(chk, pid, I, C, cfg, struct, p, kind, offw, term, o, cache):
 def run(ctx, chk):
     cfgs = ctx.configs()
     ctx.prefetch(cfgs)
-    cache = {}
+    cache = {"inline": collect_inline(ctx, cfgs)}
     done = set()
     n = 0
     for (cfg, I, C, struct, p, kind, offw, term, o) in numeric_fields(ctx, cfgs):
